@@ -27,6 +27,7 @@ RULE = ("contract on Models.__init__ / update_interpolation / shift_x_base / "
         "Non-trivial = history with >=1 constraint model and >=10 updates, or "
         "with a degenerate event followed by recovery; distinct = (n, npt, "
         "#models, operation pattern)")
+RULE += ("  Also: every evaluation whose values reach the models contains an objective call (values measured in that evaluation); long default-option runs to convergence.")
 ASSUMPTIONS = [
     "a numerically singular interpolation system carries no claim (skipped, "
     "counted); the bound recovers on reset_models",
